@@ -116,6 +116,23 @@ pub fn scenario_b(pool_size: u32, op: &str, p: &str, v: &str, b_app: Option<&str
     }
 }
 
+/// Client A (with values of its own) is served, then a RELOAD that leaves the pool alone (an unrelated
+/// general setting changes), then client B logs in with defaults: B is told the defaults and runs with them.
+pub fn scenario_reload(pool_size: u32, op: &str, p: &str, v: &str) -> Scenario {
+    let mut sc = scenario_b(pool_size, op, p, v, None);
+    let mut cfg = Cfg::one(PoolCfg::simple("db", "transaction", pool_size, 1, 0));
+    cfg.general_extra = "log_client_disconnections = true\n".into();
+    sc.alt_tomls = vec![cfg.toml()];
+    // B starts only after A is done and the reload has happened
+    sc.actors[1].steps.insert(0, crate::world::Step::Wait(crate::world::Cond::ActorsDone(vec![0, 2])));
+    sc.actors.push(crate::cfg::env(
+        "reload",
+        vec![crate::world::Step::Wait(crate::world::Cond::ActorsDone(vec![0])), crate::world::Step::WriteConfig(0), crate::world::Step::Admin("RELOAD".into()), crate::world::Step::Wait(crate::world::Cond::TimeMs(0))],
+    ));
+    sc.name = format!("{} reload-between=yes", sc.name);
+    sc
+}
+
 pub fn oracle(sc: &Scenario, out: &Outcome) -> Vec<Violation> {
     let log = &out.log;
     let mut vs = Vec::new();
@@ -177,6 +194,17 @@ pub fn oracle(sc: &Scenario, out: &Outcome) -> Vec<Violation> {
                             ),
                         ));
                     }
+                    // client B never sets anything: whatever it did not establish at startup is the server's default
+                    if t.c == 1 && *k != "application_name" && !established[1].contains_key(*k) {
+                        let dflt = crate::mockpg::default_gucs().get(*k).cloned().unwrap_or_default();
+                        if on_server != dflt {
+                            vs.push(v(
+                                "C12.foreign-value",
+                                format!("C12.foreign-value:{}:{}", k, ctx),
+                                format!("client 1 never touched {} (server default {:?}) but its statement {:?} ran with {:?}", k, dflt, sql, on_server),
+                            ));
+                        }
+                    }
                     if let Some(want) = established[t.c].get(*k) {
                         if *want != on_server {
                             vs.push(v(
@@ -235,12 +263,20 @@ pub fn build(tier: &str) -> SimCheck {
             }
         }
     }
+    // a RELOAD of an unrelated setting between the two clients
+    for pool_size in [1u32, 2] {
+        for op in ["startup", "set", "txn-set-commit"] {
+            for (p, val) in [("TimeZone", "America/New_York"), ("DateStyle", "SQL, DMY"), ("application_name", "a'b")] {
+                scenarios.push(scenario_reload(pool_size, op, p, val));
+            }
+        }
+    }
     SimCheck {
         scenarios,
         oracle: Box::new(oracle),
         bound: if thorough { 3 } else { 2 },
         limits: Limits { max_wall_s: if thorough { 1500.0 } else { 55.0 }, ..Default::default() },
-        rule: "client B also with an application_name of its own (unrelated / equal to A's up to letter case); scenario = pool_size {1,2} x operation of client A (startup parameter, SET, SET twice, SET with an untracked SET, SET then RESET ALL, SET inside a rolled-back / committed transaction) x tracked parameter x value (free text incl. space, quote, backslash, non-ASCII, empty for application_name; valid alternates for the others); client B uses defaults and shares the connection(s); every schedule with <= bound deviations; at every tagged statement the backend's value of each tracked parameter must equal what that client was told by ParameterStatus and what it established".into(),
+        rule: "a RELOAD of an unrelated general setting between client A and client B (the pool is kept; B must be told, and run with, the defaults); client B also with an application_name of its own (unrelated / equal to A's up to letter case); scenario = pool_size {1,2} x operation of client A (startup parameter, SET, SET twice, SET with an untracked SET, SET then RESET ALL, SET inside a rolled-back / committed transaction) x tracked parameter x value (free text incl. space, quote, backslash, non-ASCII, empty for application_name; valid alternates for the others); client B uses defaults and shares the connection(s); every schedule with <= bound deviations; at every tagged statement the backend's value of each tracked parameter must equal what that client was told by ParameterStatus and what it established".into(),
         assumptions: vec!["reference backend reports ParameterStatus like PostgreSQL 14 (before ReadyForQuery, also on RESET ALL and ROLLBACK)".into()],
     }
 }
